@@ -271,6 +271,41 @@ pub fn run(ctx: &Ctx) -> CheckResult {
                 }
                 // short prefixes also with the long-running instance serialized + restored / replaced by
                 // its clone right before the last input
+                let ends_in_reset = p.last().map(|&a| a as usize == pre_vals.len()).unwrap_or(false);
+                if ends_in_reset && p.len() >= 2 && p.len() <= 3 {
+                    // the long-running instance goes through a transformation right before the reset() that
+                    // ends its prefix: replay prefix (minus the reset), transform, reset, suffix
+                    for via in [Via::Serde, Via::CloneFromUsed] {
+                        let plen = p.len();
+                        let r = std::panic::catch_unwind(std::panic::AssertUnwindSafe(|| {
+                            let mut s = make(cfg);
+                            for op in &full[..plen - 1] {
+                                s.apply(op);
+                            }
+                            s = apply_via(cfg, s, via);
+                            let mut last = Out::NONE;
+                            for op in &full[plen - 1..] {
+                                last = s.apply(op);
+                            }
+                            last
+                        }));
+                        out.stats.transitions += full.len() as u64;
+                        let ok = match r {
+                            Ok(a2) => compare(cfg, &full, &suffix, &a2, &b, &mut out),
+                            Err(_) => {
+                                out.fail(Violation::new(PROP, cfg, &full, "panic").obs("panic".into()).exp("outputs".into()));
+                                false
+                            }
+                        };
+                        if !ok {
+                            if let Some(v) = out.violations.last_mut() {
+                                v.detail.push_str(&format!(" [the instance was {} right before the reset() at position {}]", via.text(), plen));
+                                v.extra.insert("checkpoint".into(), format!("{}@{}", via.tag(), plen - 1));
+                            }
+                            return false;
+                        }
+                    }
+                }
                 if p.len() <= 1 {
                     for via in VIAS {
                         out.stats.transitions += full.len() as u64;
